@@ -1281,7 +1281,11 @@ where
     }
 
     fn to_index(&self, ix: Self::EdgeId) -> usize {
-        self.edges.get_index_of(&ix).expect("edge not found")
+        // edge ids are handed out in the orientation they were asked for (`edges(b)` yields `(b, a)`),
+        // the map is keyed by the canonical pair
+        self.edges
+            .get_index_of(&Self::edge_key(ix.0, ix.1))
+            .expect("edge not found")
     }
 
     fn from_index(&self, ix: usize) -> Self::EdgeId {
